@@ -36,7 +36,7 @@ ASNS = [1, 64512, 65000, 65534, 65535, 65536, 70000, 4200000000, 4294967295]
 
 def gen_config(rng, idx, big=False):
     """-> dict describing a neighbor configuration (JSON-able) with its text."""
-    local_as = rng.choice(ASNS)
+    local_as = rng.choice(ASNS) if rng.random() > 0.12 else 0  # 0: local-as auto (the peer's AS is mirrored)
     r = rng.random()
     if r < 0.35:
         peer_as = local_as  # iBGP
@@ -75,7 +75,7 @@ def gen_config(rng, idx, big=False):
     if big:
         host, domain = 'my-host-name', 'my.domain.example'
     lines = ['neighbor 127.0.0.1 {', f'  router-id {rid >> 24}.{(rid >> 16) & 255}.{(rid >> 8) & 255}.{rid & 255};',
-             '  local-address 127.0.0.2;', f'  local-as {local_as};']
+             '  local-address 127.0.0.2;', f'  local-as {local_as if local_as else "auto"};']
     lines.append(f'  peer-as {peer_as if peer_as is not None else "auto"};')  # auto: any AS is accepted
     lines.append(f'  hold-time {hold};')
     if host:
@@ -147,8 +147,15 @@ def cfg_of_neighbor(n, restarted):
     }
 
 
-def our_adv(cfg):
+def auto_as(peer_adv):
+    """local-as auto: the AS of the session is the peer's true AS."""
+    return peer_adv['as4'][-1] if peer_adv['as4'] else peer_adv['as2']
+
+
+def our_adv(cfg, peer_adv=None):
     """What the configuration enables, as a Spec_Open.adv (the independent reading of Capabilities.new)."""
+    if cfg['local_as'] == 0:
+        cfg = dict(cfg, local_as=auto_as(peer_adv))
     return {
         'version': 4,
         'as2': cfg['local_as'] if cfg['local_as'] <= 65535 else AS_TRANS,
@@ -165,6 +172,7 @@ def our_adv(cfg):
         'pl': [(f, v) for f, v in cfg['paths_limit'] if f in ADDPATH_OK and f in cfg['addpaths'] and v > 0]
               if cfg['addpath'] in (1, 3) else [],
         'ms': cfg['multisession'],
+        'ms_ids': [1] if cfg['multisession'] else [],  # sessions are grouped on MULTIPROTOCOL
     }
 
 
@@ -353,6 +361,7 @@ def gen_peer(rng, cfg, stream):
         'enhanced': any(c[0] == 'err' for c in caps),
         'pl': [e for c in caps if c[0] == 'pl' for e in c[1]],
         'ms': any(c[0] == 'ms' for c in caps),
+        'ms_ids': [x for c in caps if c[0] == 'ms' for x in c[1][1:]],
     }
     kind = stream
     if stream == 'malformed':
@@ -421,29 +430,20 @@ def mutate(rng, body, caps, version, as2, hold, rid):
 
 
 def run_impl(neighbor, restarted, body, universe):
-    """-> (our OPEN body bytes, outcome).  outcome: ['D', code, sub] | ['X', exc] | ['N', refusal|None, fields]"""
-    from exabgp.bgp.message import Message
-    from exabgp.bgp.message.direction import Direction
+    """Drive Protocol.new_open / Message.unpack / Negotiated the way Peer._establish does.
+    -> (our OPEN body bytes or None, outcome).  outcome: ['D', code, sub] | ['X', exc] | ['N', refusal|None, fields]"""
     from exabgp.bgp.message.notification import Notify
-    from exabgp.bgp.message.open import Open, Version
-    from exabgp.bgp.message.open.capability import Capabilities
-    from exabgp.bgp.message.open.capability.negotiated import Negotiated
+    from translate.t6_registry import open_exchange
 
-    neg = Negotiated(neighbor, Direction.IN)
-    ours = Open.make_open(Version(4), neighbor.session.local_as, neighbor.hold_time, neighbor.session.router_id,
-                          Capabilities().new(neighbor, restarted))
-    ours_bytes = ours.pack_message(neg)[19:]
+    ours_bytes = None
     try:
-        peer = Message.unpack(Message.CODE.OPEN, bytes(body), neg)
-    except Notify as exc:
-        return ours_bytes, ['D', int(exc.code), int(exc.subcode)]
-    except Exception as exc:  # noqa: BLE001 - a crash on peer input is a finding
-        return ours_bytes, ['X', type(exc).__name__ + ': ' + str(exc)[:120]]
-    try:
-        neg.sent(ours)
-        neg.received(peer)
+        ours, peer, neg = open_exchange(neighbor, restarted, body)
+        if ours is not None:
+            ours_bytes = ours.pack_message(neg)[19:]
+        if isinstance(peer, Notify):
+            return ours_bytes, ['D', int(peer.code), int(peer.subcode)]
         err = neg.validate(neighbor)
-    except Exception as exc:  # noqa: BLE001
+    except Exception as exc:  # noqa: BLE001 - a crash on peer input is a finding
         return ours_bytes, ['X', type(exc).__name__ + ': ' + str(exc)[:120]]
     fields = {
         'families': [(int(a), int(s)) for a, s in neg.families],
@@ -467,17 +467,15 @@ def run_impl(neighbor, restarted, body, universe):
     return ours_bytes, ['N', None if err is None else [int(err[0]), int(err[1])], fields]
 
 
-def our_roundtrip(neighbor, restarted):
-    """Our OPEN: pack, unpack, pack again; -> (bytes, same bytes?, same text?, extended parameters?)"""
-    from exabgp.bgp.message import Message
-    from exabgp.bgp.message.direction import Direction
-    from exabgp.bgp.message.open import Open, Version
-    from exabgp.bgp.message.open.capability import Capabilities
-    from exabgp.bgp.message.open.capability.negotiated import Negotiated
+GOOD_PEER = bytes([4, 0xFD, 0xE9, 0, 90, 9, 9, 9, 9, 8, 2, 6, 0x41, 4, 0, 0, 0xFD, 0xE9])  # AS 65001, ASN4(65001)
 
-    neg = Negotiated(neighbor, Direction.IN)
-    ours = Open.make_open(Version(4), neighbor.session.local_as, neighbor.hold_time, neighbor.session.router_id,
-                          Capabilities().new(neighbor, restarted))
+
+def our_roundtrip(neighbor, restarted, body=GOOD_PEER):
+    """Our OPEN (Protocol.new_open): pack, unpack, pack again; -> (bytes, same bytes?, same text?, extended parameters?)"""
+    from exabgp.bgp.message import Message
+    from translate.t6_registry import open_exchange
+
+    ours, _, neg = open_exchange(neighbor, restarted, body)
     b1 = ours.pack_message(neg)
     back = Message.unpack(Message.CODE.OPEN, b1[19:], neg)
     b2 = back.pack_message(neg)
@@ -551,7 +549,7 @@ def cadv(a):
     ap = '[' + '; '.join(f'({cfam(f)}, {sr})' for f, sr in a['addpath']) + ']'
     return (
         f'(Build_adv {a["version"]} {a["as2"]} {a["hold"]} {a["id"]} {cfams(a["mp"])} {zlist(a["as4"])} {ap} '
-        f'{cnhs(a["nexthop"])} {cb(a["extmsg"])} {cb(a["refresh"])} {cb(a["enhanced"])} {cfz(a["pl"])} {cb(a["ms"])})'
+        f'{cnhs(a["nexthop"])} {cb(a["extmsg"])} {cb(a["refresh"])} {cb(a["enhanced"])} {cfz(a["pl"])} {cb(a["ms"])} {zlist(a["ms_ids"])})'
     )
 
 
@@ -588,6 +586,12 @@ Definition oko (c : cfg * list Z) : bool :=
     zl_eqb (enc_open (open_of cf)) bytes &&
     match dec_open bytes with
     | Ok o => zl_eqb (enc_open o) bytes && (o_asn o =? o_asn (open_of cf)) && (o_hold o =? c_hold cf) && (o_rid o =? c_rid cf)
+    | Notify _ _ => false end end.
+(* local-as auto: our OPEN depends on the peer's *)
+Definition oka (c : cfg * list Z * list Z) : bool :=
+  match c with (cf, body, bytes) =>
+    match dec_open body with
+    | Ok r => zl_eqb (enc_open (our_open cf r)) bytes
     | Notify _ _ => false end end.
 """
 
@@ -641,7 +645,7 @@ Fixpoint judge_all (l : list (Z * Z * adv * adv * option (Z * Z) * option obs)) 
 
 def spec_case(cfg, peer, out, universe):
     """Spec literal of one decodable case.  out = ['N', refusal, fields] or ['D', c, s] (refused while decoding)."""
-    ours, theirs = our_adv(cfg), peer['adv']
+    ours, theirs = our_adv(cfg, peer['adv']), peer['adv']
     if out[0] == 'N':
         f = out[2]
         ref = 'None' if out[1] is None else f'(Some ({out[1][0]}, {out[1][1]}))'
@@ -701,7 +705,7 @@ def minimal_peer(cfg, true_as, rid, hold=90, caps=None):
     as2 = true_as if true_as <= 65535 else AS_TRANS
     body = bytes([4]) + be16(as2) + be16(hold) + be32(rid) + bytes([len(params)]) + params
     adv = {'version': 4, 'as2': as2, 'hold': hold, 'id': rid, 'mp': [c[1] for c in caps if c[0] == 'mp'], 'as4': [true_as],
-           'addpath': [], 'nexthop': [], 'extmsg': False, 'refresh': False, 'enhanced': False, 'pl': [], 'ms': False}
+           'addpath': [], 'nexthop': [], 'extmsg': False, 'refresh': False, 'enhanced': False, 'pl': [], 'ms': False, 'ms_ids': []}
     return {'body': list(body), 'adv': adv, 'kind': 'valid', 'consistent': True, 'extended_params': False, 'ncaps': len(caps),
             'note': ['shrunk'], 'true_as': true_as}
 
@@ -717,7 +721,7 @@ def check(tier, seed):
         'modelled, not verified: Open/Capabilities/Negotiated python code (hand model Model_Open, constants regenerated)',
     ]
     run.assumptions = [
-        'configurations: local-as given (not auto) and different from AS_TRANS (23456); peer-as may be auto',
+        'configurations: local-as different from AS_TRANS (23456); local-as and peer-as may be auto',
         'peer OPEN AS-consistent in the RFC 6793 sense and Send/Receive in 0..3 for the property oracle; inconsistent '
         'pairs and other octet values only in the "odd" stream where only the correspondence is demanded',
         'host name / software version strings of the peer are ASCII (UTF-8 validity of capability strings is not modelled)',
@@ -747,6 +751,11 @@ def check(tier, seed):
         '(Gen_Registry.UNKNOWN_PARAM_SUBCODE = 4, RFC 4271 6.2)',
         gen_flags.get('UNKNOWN_PARAM_SUBCODE') == 4, f'probe: {gen_flags}')
 
+    for flag, what in (('MS_VALUE_PARSED', 'the MultiSession capability value is one TLV [flags, codes] and is read back on receipt'),
+                       ('AUTO_AS_FROM_PEER_CAP', 'with local-as auto our OPEN carries the true AS of the peer, in My AS and in the ASN4 capability'),
+                       ('AUTO_COLLISION_CHECK', 'with local-as auto the identifier collision test uses the negotiated local AS')):
+        run.obligation(f'tree behaviour: {what} (Gen_Registry.{flag} = true)', gen_flags.get(flag) is True, f'probe: {gen_flags}')
+
     rng = random.Random(seed)
     nconf = 120 if tier == "quick" else 1500
     per = 16 if tier == "quick" else 32
@@ -754,6 +763,7 @@ def check(tier, seed):
     t_impl = time.time()
     cases = []  # (conf index, cfg, peer, outcome, universe)
     ours_cases = []  # (cfg, our bytes)
+    auto_cases = []  # local-as auto: (conf index, cfg, peer body, our bytes)
     rt_bad = []
     skipped = 0
     ext_ours = 0
@@ -764,13 +774,16 @@ def check(tier, seed):
             skipped += 1
             continue
         cfg = cfg_of_neighbor(n, conf['restarted'])
-        if cfg['local_as'] in (0, AS_TRANS):
+        if cfg['local_as'] == AS_TRANS:
             skipped += 1
             continue
         loaded[ci] = (n, cfg)
         ob, same_bytes, same_text, is_ext = our_roundtrip(n, conf['restarted'])
         ext_ours += is_ext
-        ours_cases.append((ci, cfg, list(ob)))
+        if cfg['local_as']:
+            ours_cases.append((ci, cfg, list(ob)))
+        else:
+            auto_cases.append((ci, cfg, list(GOOD_PEER), list(ob)))
         if not (same_bytes and same_text):
             rt_bad.append(ci)
             run.fail_case('our-open-roundtrip-multisession' if cfg['multisession'] else 'our-open-roundtrip',
@@ -781,8 +794,10 @@ def check(tier, seed):
             stream = ['valid', 'valid', 'valid', 'valid', 'valid', 'odd', 'malformed', 'malformed'][j % 8]
             peer = gen_peer(rng, cfg, stream)
             univ = universe_of(cfg, peer)
-            _, out = run_impl(n, conf['restarted'], peer['body'], univ)
+            ob2, out = run_impl(n, conf['restarted'], peer['body'], univ)
             cases.append((ci, cfg, peer, out, univ))
+            if not cfg['local_as'] and ob2 is not None:
+                auto_cases.append((ci, cfg, list(peer['body']), list(ob2)))
     t_impl = time.time() - t_impl
 
     # crashes on peer input are findings of their own (no model value to compare with)
@@ -838,12 +853,27 @@ def check(tier, seed):
         if rc == 0 and parsed:
             ours_bad += [shard[j] for j in common.nat_list_of(parsed[0])]
 
+    ashards = common.chunked(list(range(len(auto_cases))), 60)
+
+    def auto_defs(idx):
+        items = [f'({ccfg(auto_cases[k][1])}, {zlist(auto_cases[k][2])}, {zlist(auto_cases[k][3])})' for k in idx]
+        return ('Definition cases : list (cfg * list Z * list Z) := [' + ';\n'.join(items) + '].\n'
+                'Eval vm_compute in (bad oka cases 0).\n')
+
+    ares = common.eval_cases(HEADER_MODEL, auto_defs, ashards, 'c07_a') if auto_cases else []
+    ours_ok = ours_ok and all(rc == 0 for rc, _, _ in ares)
+    auto_bad = []
+    for shard, (rc, out, parsed) in zip(ashards, ares):
+        if rc == 0 and parsed:
+            auto_bad += [shard[j] for j in common.nat_list_of(parsed[0])]
+
     # ---- property oracle (spec): decodable, RFC-consistent peers
     # wf_cfg of the theorems: a 4-octet local AS is configured together with the ASN4 capability
-    def cfg_rfc_sane(cfg):
-        return cfg['asn4'] or cfg['local_as'] <= 65535
+    def cfg_rfc_sane(cfg, peer):
+        la = cfg['local_as'] or (auto_as(peer['adv']) if peer['adv'] else 0)
+        return (cfg['asn4'] or la <= 65535) and la not in (0, AS_TRANS)
 
-    judged = [k for k in live if cases[k][2]['adv'] is not None and cases[k][2]['consistent'] and cfg_rfc_sane(cases[k][1])]
+    judged = [k for k in live if cases[k][2]['adv'] is not None and cases[k][2]['consistent'] and cfg_rfc_sane(cases[k][1], cases[k][2])]
     sshards = common.chunked(judged, 150)
 
     def spec_defs(idx):
@@ -858,7 +888,7 @@ def check(tier, seed):
         if rc == 0 and parsed:
             spec_bad += [(shard[i], d) for i, d in parse_pairs(parsed[0])]
     t_eval = time.time() - t_eval
-    logs = [out for rc, out, _ in mres + ores + sres if rc != 0]
+    logs = [out for rc, out, _ in mres + ores + ares + sres if rc != 0]
     print(f'[C07] impl {t_impl:.1f}s coq eval {t_eval:.1f}s cases={len(cases)} configs={len(loaded)}', flush=True)
     run.coverage['timing_s'] = {'implementation': round(t_impl, 1), 'coq_evaluation': round(t_eval, 1)}
 
@@ -879,6 +909,10 @@ def check(tier, seed):
         f'({ext_ours} with RFC 9072 extended optional parameters)',
         not ours_bad and ext_ours > 0,
         f'{len(ours_bad)} disagreements, first: {confs[ours_cases[ours_bad[0]][0]]["text"] if ours_bad else ""}; extended={ext_ours}')
+    run.obligation(
+        f'correspondence: with local-as auto the bytes of our OPEN = Model_Open.enc_open (our_open cfg peer) on {len(auto_cases)} pairs',
+        not auto_bad,
+        f'{len(auto_bad)} disagreements, first: {confs[auto_cases[auto_bad[0]][0]]["text"] + " peer " + bytes(auto_cases[auto_bad[0]][2]).hex() if auto_bad else ""}')
     run.obligation(f'our OPEN survives Open.pack_message -> Message.unpack -> pack_message unchanged on {len(ours_cases)} configurations',
                    not rt_bad, f'{len(rt_bad)} failures')
     run.obligation(
@@ -895,6 +929,10 @@ def check(tier, seed):
         return [FIELD[c] for _, d in parse_pairs(res[0][2][0]) for c in d]
 
     def sig_of(name, cfg, peer, out):
+        if not cfg['local_as']:
+            return f'local-as-auto:{name}'
+        if cfg['multisession'] and name in ('accepted-with-fault', 'refused-without-fault', 'wrong-subcode'):
+            return f'multisession:{name}'
         four = cfg['local_as'] > 65535
         if name == 'local_as' and four and out[0] == 'N' and out[2]['local_as'] == AS_TRANS:
             return 'local-as-is-as-trans'
@@ -923,7 +961,7 @@ def check(tier, seed):
                     break
             d = describe(confs[ci], cfg, small, sout)
             d['differs_in'] = name
-            d['rfc_says'] = {'true_local_as': cfg['local_as'] if cfg['asn4'] else our_adv(cfg)['as2'],
+            d['rfc_says'] = {'true_local_as': our_adv(cfg, small['adv'])['as4'][-1] if cfg['asn4'] else our_adv(cfg, small['adv'])['as2'],
                              'peer_true_as': small['true_as'], 'peer_identifier': small['adv']['id'], 'our_identifier': cfg['rid']}
             run.fail_case(sig, f'Negotiated differs from the RFC function of the two OPENs in: {name}', d)
     if model_bad and not spec_bad:
@@ -953,6 +991,8 @@ def check(tier, seed):
         'our_open_extended_params': ext_ours,
         'configs_loaded': len(loaded), 'configs_skipped': skipped,
         'local_as_4byte_cases': sum(1 for c in cases if c[1]['local_as'] > 65535),
+        'local_as_auto_cases': sum(1 for c in cases if c[1]['local_as'] == 0), 'local_as_auto_open_bytes_compared': len(auto_cases),
+        'multisession_cases': sum(1 for c in cases if c[1]['multisession']),
         'judged_by_spec': len(judged),
         'exhaustive': False,
     })
